@@ -40,7 +40,7 @@ func (c16) Meta() fw.Meta {
 			"the harness runs as root and drops the child to uid 65534 for the permission faults; scratch directories are made world-traversable for those cases",
 			"point-line counts are only compared when the second did not change across the process",
 		},
-		Obligations: []string{"invocations", "success_effect_checked", "fault_reported", "textout_file_checked", "absent_series_invocations", "out_of_range_archive_reported", "diff_missing_side_exit1", "uid_dropped_runs"},
+		Obligations: []string{"invocations", "success_effect_checked", "fault_reported", "textout_file_checked", "absent_series_invocations", "out_of_range_archive_reported", "diff_missing_side_exit1", "uid_dropped_runs", "two_item_fault_runs"},
 		Workers:     12,
 		Level:       "fault_enumeration",
 	}
@@ -155,6 +155,23 @@ func (c16) Run(c *fw.Ctx) {
 		args = append([]string{"sum-diff", "-src-base", srcBase, "-item", item, "-src", "*.wsp", "-dest-base", destBase, "-dest", "sum.wsp", "-archive", strconv.Itoa(sel)}, winArgs...)
 	case "generate":
 		args = append([]string{"generate", "-dest", genDest}, retArgs...)
+		if c.Index%3 == 1 {
+			args = append(args, "-fill=false")
+		}
+	}
+	// the sum family with TWO items when an input fault is injected into the first one: a good last item
+	// must not hide the failure of an earlier one
+	twoItems := (cmdName == "sum" || cmdName == "sum-copy" || cmdName == "sum-diff") && (fault == "source-garbage" || fault == "source-truncated" || fault == "layout-mismatch")
+	if twoItems {
+		writeFixture(filepath.Join(srcBase, "grpz", "a.wsp"), l, genContent(r, l, now, 0.7), now)
+		writeFixture(filepath.Join(srcBase, "grpz", "b.wsp"), l, genContent(r, l, now, 0.7), now)
+		writeFixture(filepath.Join(destBase, "grpz", "sum.wsp"), l, genContent(r, l, now, 0.7), now)
+		for i := range args {
+			if args[i] == "-item" {
+				args[i+1] = "grp*"
+			}
+		}
+		c.Count("two_item_fault_runs", 1)
 	}
 	hasArchive := cmdName != "generate"
 	hasWindow := cmdName != "generate"
